@@ -1749,3 +1749,67 @@ def rf131(run):
                           'and the value of Y lands in the spill slot of X (wrong results at -O2 and -O3 under register pressure)' %
                           (place, res[1], res[0], first), line=f.line)
     return n
+
+
+# ---------------------------------------------------------------------------------------------
+# RF148: exchanging two operands of an instruction keeps their SSA edges consistent
+# ---------------------------------------------------------------------------------------------
+
+def rf148(run):
+    rule = 'RF148'
+    run.rule(rule, 'mir-gen.c, passes that work on SSA edges (`ops[k].data`): where operands 1 and 2 of an instruction are exchanged (both '
+                   '`x->ops[1] = …` and `x->ops[2] = …` in one block statement, as the SWAP macro expands), the same block statement also assigns '
+                   'use_op_num of the edges.  An edge that still says "operand 1" is removed from the wrong operand when the instruction '
+                   'is deleted, and the edge of the other operand dangles (pressure_relief follows it into freed memory)')
+    gen = run.tu('gen')
+    n = 0
+    for g in gen.func_list:
+        if g.body is None or not g.file.endswith('mir-gen.c'):
+            continue
+        if not any(y['k'] == 'MemberExpr' and y['n'] == 'data' and 'ops[' in F.src(y) for y in g.walk()):
+            continue
+        for blk in g.walk():
+            if blk['k'] != 'CompoundStmt':
+                continue
+            direct = F.kids(blk)
+            a1 = a2 = None
+            for s_ in direct:
+                for y in F.walk(s_):
+                    if y['k'] in ('CompoundStmt',) and y is not s_:
+                        pass
+                    if y['k'] == 'BinaryOperator' and y['op'] == '=':
+                        l = F.src(F.strip(y['c'][0])).replace(' ', '')
+                        r = F.src(F.strip(y['c'][1])).replace(' ', '')
+                        if l.endswith('->ops[1]') and (r.endswith('->ops[2]') or 'temp' in r):
+                            a1 = y
+                        if l.endswith('->ops[2]') and (r.endswith('->ops[1]') or 'temp' in r):
+                            a2 = y
+            if a1 is None or a2 is None:
+                continue
+            # the innermost compound statement that holds both assignments
+            inner = [c for c in F.walk(blk) if c['k'] == 'CompoundStmt' and c is not blk and any(y is a1 for y in F.walk(c)) and any(y is a2 for y in F.walk(c))]
+            if inner:
+                continue
+            base1 = F.src(F.strip(a1['c'][0])).replace(' ', '')[:-len('->ops[1]')]
+            base2 = F.src(F.strip(a2['c'][0])).replace(' ', '')[:-len('->ops[2]')]
+            if base1 != base2:
+                continue
+            n += 1
+            scope = blk
+            par = g.parent_of(blk)
+            if par is not None and par['k'] == 'DoStmt':     # the body of a `do { … } while (0)` macro: judge the statement list around it
+                up = g.parent_of(par)
+                while up is not None and up['k'] != 'CompoundStmt':
+                    up = g.parent_of(up)
+                if up is not None:
+                    scope = up
+            fixed = any(y['k'] == 'BinaryOperator' and y['op'] == '=' and F.src(F.strip(y['c'][0])).replace(' ', '').endswith('use_op_num') for y in F.walk(scope))
+            run.functions_analysed.add(('gen', g.name))
+            run.ob(rule, (g.name, a1['l']), fixed, {'site': '%s:%d %s' % (g.relfile(), a1['l'], g.name), 'instruction': base1, 'use_op_num updated': fixed})
+            if not fixed:
+                run.violation(rule, g, 'operands exchanged without their SSA edges', 'operands 1 and 2 of `%s` are exchanged at line %d but the use_op_num of their '
+                              'SSA edges is not updated: when the instruction dies the edge of the wrong operand is removed and the other one is left '
+                              'dangling (`and r1, 0xff0f, a; uext8 r, r1` crashes the generator at -O2)' % (base1, a1['l']), line=a1['l'])
+    if n < 3:
+        raise F.AnalysisBroken('RF148: only %d operand exchanges found in SSA passes' % n)
+    return n
